@@ -437,7 +437,7 @@ func runC08(s *kernel.Sim, enumerate bool) {
 		}
 	}
 	s.FaultOn = func(point string, a []string) error {
-		if point == "trylock" { // the handler's own mutual exclusion is not a fault point here
+		if point == "trylock" || point == "proc.execute" { // the handler's own mutual exclusion and processor executions are not fault points here
 			return nil
 		}
 		if recording {
@@ -532,7 +532,7 @@ func runC08(s *kernel.Sim, enumerate bool) {
 	inRecovery = false
 	faultInRecovery := false
 	s.FaultOn = func(point string, a []string) error {
-		if !active || point == "trylock" {
+		if !active || point == "trylock" || point == "proc.execute" {
 			return nil
 		}
 		rel, _ := filepath.Rel(relBase, a[0])
